@@ -65,7 +65,7 @@ def gen_plan(rng) -> dict:
         abort = {"thread": rng.randrange(n), "u": rng.random(),
                  "exc": rng.choice(["MemoryError", "KeyboardInterrupt", "ValueError"]), "k": None}
     return {"recipes": recs, "decider": dec, "first": rng.randrange(n),
-            "trace_mode": rng.choice(["call", "call", "callret"]), "decisions": None, "abort": abort}
+            "trace_mode": rng.choice(["call", "call", "callret", "line"]), "decisions": None, "abort": abort}
 
 
 # --------------------------------------------------------------------------
@@ -269,10 +269,18 @@ def exec_schedule(arg) -> dict:
 
         o = R.outcome_of(construct)
         docs.append(holder.get("doc") if o["k"] == "ok" else None)
-    mult = 2 if plan.get("trace_mode") == "callret" else 1
-    hint = sum((refs[str(i)].get("ncalls") or 0) for i in range(n)) * mult
+    tmode = plan.get("trace_mode")
+    mult = 2 if tmode == "callret" else 1
+
+    def nbound(ref):
+        if tmode == "line":
+            return (ref.get("ncalls") or 0) + (ref.get("nlines") or 0)
+        return (ref.get("ncalls") or 0) * mult
+
+    hint = sum(nbound(refs[str(i)]) for i in range(n))
     sched = Sched(n, plan, hint)
-    want_ret = plan.get("trace_mode") == "callret"
+    want_ret = tmode == "callret"
+    want_line = tmode == "line"
     outcomes: list = [None] * n
     abort = plan.get("abort")
     abort_fired = [None]
@@ -284,7 +292,7 @@ def exec_schedule(arg) -> dict:
         if ab:
             abk = ab.get("k")
             if abk is None:
-                nc = (refs[str(i)].get("ncalls") or 0) * mult
+                nc = nbound(refs[str(i)])
                 abk = 1 + int(ab["u"] * nc) if nc else None
 
         def local(frame, event, a):
@@ -297,6 +305,12 @@ def exec_schedule(arg) -> dict:
                 excf.add(id(frame))
             return local
 
+        def local_line(frame, event, a):
+            # pre-emption between statements of one library function
+            if event == "line":
+                sched.boundary(i, frame, "line")
+            return local_line
+
         def tracer(frame, event, a):
             if event != "call" or not boot.is_lib_code(frame.f_code):
                 return None
@@ -308,6 +322,8 @@ def exec_schedule(arg) -> dict:
             if want_ret:
                 frame.f_trace_lines = False
                 return local
+            if want_line:
+                return local_line
             return None
 
         return tracer
@@ -442,7 +458,8 @@ class RefCache:
         if not want_text and not want_sites and h in self.cache:
             return self.cache[h]
         ref = core.run_in_child(R.reference_worker, {"recipe": recipe, "figdir": self.figdir, "warmup": True,
-                                                     "want_text": want_text, "want_sites": want_sites})
+                                                     "want_text": want_text, "want_sites": want_sites,
+                                                     "want_lines": True})
         if not want_text and not want_sites:
             self.cache[h] = ref
         return ref
@@ -669,20 +686,24 @@ def sweep_pairs(root: int, n_pairs: int) -> list:
     return pairs
 
 
-def sweep_jobs(root: int, pairs: list, refcache: RefCache, trace_mode: str, stride: int, offset_seed) -> list:
+def sweep_jobs(root: int, pairs: list, refcache: RefCache, specs: list) -> list:
+    """specs: [(pair index, trace mode, stride)]"""
     jobs = []
     idx = 10_000_000
-    for pi, (a, b) in enumerate(pairs):
+    for pi, trace_mode, stride in specs:
+        a, b = pairs[pi]
         for order in (0, 1):
             recs = [a, b]
             first = order
             ref_first = refcache.get(recs[first])
-            K = (ref_first.get("ncalls") or 0) * (2 if trace_mode == "callret" else 1)
-            off = core.rng_for(root, PROP, "sweep-offset", pi, order).randrange(stride) if stride > 1 else 0
+            K = ((ref_first.get("ncalls") or 0) + (ref_first.get("nlines") or 0) if trace_mode == "line"
+                 else (ref_first.get("ncalls") or 0) * (2 if trace_mode == "callret" else 1))
+            off = core.rng_for(root, PROP, "sweep-offset", pi, order, trace_mode).randrange(stride) if stride > 1 else 0
             for k in range(1 + off, K + 1, stride):
                 plan = {"recipes": recs, "decider": {"kind": "sweep"}, "first": first, "trace_mode": trace_mode,
                         "decisions": [[k, 1 - first]], "abort": None}
-                jobs.append({"idx": idx, "sweep": {"pair": pi, "order": order, "k": k, "K": K}, "plan": plan})
+                jobs.append({"idx": idx, "sweep": {"pair": pi, "order": order, "k": k, "K": K, "mode": trace_mode,
+                                                   "stride": stride}, "plan": plan})
                 idx += 1
     return jobs
 
@@ -691,8 +712,10 @@ def sweep_jobs(root: int, pairs: list, refcache: RefCache, trace_mode: str, stri
 # batch
 # --------------------------------------------------------------------------
 
-TIERS = {"quick": {"runs": 2400, "wall": 420.0, "pairs": 2, "stride": 8, "sweep_mode": "call"},
-         "thorough": {"runs": 60000, "wall": 3000.0, "pairs": 6, "stride": 1, "sweep_mode": "callret"}}
+TIERS = {"quick": {"runs": 2400, "wall": 420.0, "pairs": 2,
+                   "sweeps": [(0, "call", 4), (1, "call", 4), (0, "line", 24), (1, "line", 24)]},
+         "thorough": {"runs": 60000, "wall": 3000.0, "pairs": 6,
+                      "sweeps": [(i, "callret", 1) for i in range(6)] + [(i, "line", 4) for i in range(6)]}}
 
 
 def main(opts) -> int:
@@ -709,7 +732,7 @@ def main(opts) -> int:
     figdir = tempfile.mkdtemp(prefix="vc15main_")
     rc = RefCache(figdir)
     pairs = sweep_pairs(root, tier["pairs"])
-    sjobs = sweep_jobs(root, pairs, rc, tier["sweep_mode"], tier["stride"], root)
+    sjobs = sweep_jobs(root, pairs, rc, tier["sweeps"])
     jobs = sjobs + [{"root": root, "idx": i} for i in range(runs)]
     results, truncated = core.pool_map(job, jobs, wall_cap=wall)
     herrs = [f"run {jobs[i].get('idx')}: {r['harness_error'][:600]}" for i, r in sorted(results.items())
@@ -754,10 +777,10 @@ def write_evidence(opts, good, njobs, nres, truncated, sjobs, pairs, tier, n_new
     sweep_prog: dict = {}
     for r in sw:
         s = r["sweep"]
-        key = f"pair{s['pair']}-order{s['order']}"
+        key = f"pair{s['pair']}-order{s['order']}-{s['mode']}-stride{s['stride']}"
         d = sweep_prog.setdefault(key, {"K": s["K"], "done": 0})
         d["done"] += 1
-    sweep_complete = bool(sjobs) and len(sw) == len(sjobs) and tier["stride"] == 1
+    sweep_complete = bool(sjobs) and len(sw) == len(sjobs) and any(st == 1 for _p, _m, st in tier["sweeps"])
     cov = {
         "evaluations": len(good),
         "distinct_nontrivial": len(nontriv),
@@ -771,10 +794,10 @@ def write_evidence(opts, good, njobs, nres, truncated, sjobs, pairs, tier, n_new
                  "switch list (from-thread, to-thread, pre-empted call site)."),
         "samples": [r["sample"] for r in good if r.get("sample")][:3],
         "schedules_seeded": len(seeded), "schedules_sweep": len(sw), "sweep_jobs_planned": len(sjobs),
-        "sweep_stride": tier["stride"], "sweep_trace_mode": tier["sweep_mode"],
+        "sweep_specs_pair_mode_stride": [list(x) for x in tier["sweeps"]],
         "sweep_progress": sweep_prog, "sweep_pairs": [[R.recipe_traits(a), R.recipe_traits(b)] for a, b in pairs],
         "exhaustive": False,
-        "one_preemption_sweep_complete_for_listed_pairs": sweep_complete,
+        "one_preemption_sweep_complete_for_listed_pairs_at_stride_1_specs": sweep_complete,
         "schedules_per_hour": int(len(good) / wall_s * 3600) if wall_s > 0 else 0,
         "simulated_time": "none (library has no clock); logical steps = library call/return boundaries executed",
         "steps": sum(r["steps"] for r in good),
